@@ -27,6 +27,7 @@ import (
 	"hash/crc64"
 	"hash/fnv"
 	"io"
+	"os"
 	"sort"
 	"strings"
 	"sync"
@@ -566,6 +567,9 @@ func runC35Streaming(rc *RunCtx) (*Violation, error) {
 			c.yieldEvery = max(c.yieldEvery, n/min(avgOf(c.sizes), avgOf(c.consSizes))/400+1)
 		}
 		cases = append(cases, c)
+		if os.Getenv("VERIF_DEBUG_C35") != "" {
+			fmt.Fprintf(os.Stderr, "C35CASE n=%d kind=%d sizes=%v eof=%v failAt=%d ye=%d consumer=%d cons=%v\n", n, c.kind, c.sizes, c.eofData, c.failAt, c.yieldEvery, c.consumer, c.consSizes)
+		}
 	}
 	sig := sha256.New()
 	ctx := context.Background()
@@ -573,6 +577,7 @@ func runC35Streaming(rc *RunCtx) (*Violation, error) {
 		for i, c := range cases {
 			body := seams.NewBody(c.data)
 			body.Sizes, body.EOFWithData, body.YieldEvery = c.sizes, c.eofData, c.yieldEvery
+			body.MaxYields = 2000 // the effective read size is min(body size, consumer size) per read, which the estimate above cannot bound
 			if c.failAt >= 0 {
 				body.FailAt, body.Err = c.failAt, errPstInjectedBody
 			}
